@@ -126,7 +126,7 @@ VARIANTS += [
     # reverting fix 50f0535 (evictions not restored)
     fire("c16-evicted-modules-not-restored",
          [(IMPF, "            for k, v in evicted.items():\n                sys.modules.setdefault(k, v)\n            raise", "            raise")],
-         ("C16.16", "jaqal_import:sys.modules-evict"), ("C16",)),
+         ("C16.32", "jaqal_import:after-eviction:importlib.import_module"), ("C16",)),
     fire("c16-half-initialised-module-left",
          [(IMPF, "        if sys.modules.get(mod_name) is module:\n            del sys.modules[mod_name]\n        raise", "        raise")],
          ("*", "_import"), ("C16",)),
